@@ -13,6 +13,7 @@ CONSTANTS
   TIL = 2
   MaxFails = 2
   MinBkt = 1
+  MaxGen = 0
   MaxChecks = 1
   Ops = {"add","delete"}
   Devs = {}
